@@ -563,7 +563,7 @@ class Runner(IOOpsMixin):
                 return ("json", repr(calc.qha_input))
             if name == "elast_data":
                 ed = calc.elast_data
-                return ("json", repr((ed.vref, ed.nv, ed.cellmass, [(v.volume, [("%d%d" % k.v, float(x)) for k, x in v.static_elastic_modulus.items()]) for v in ed.volumes], ed.lattice_parmeters)))
+                return ("json", repr((ed.vref, ed.nv, ed.cellmass, [(v.volume, [(("%d%d" % k.v) if hasattr(k, "v") else repr(k), float(x)) for k, x in v.static_elastic_modulus.items()]) for v in ed.volumes], ed.lattice_parmeters)))
             if name.startswith("mode_gamma"):
                 return ("arr", calc.mode_gamma[int(name[-1])])
             return ("arr", getattr(calc, name))
